@@ -18,7 +18,7 @@
 
 #define MAXW        64
 #define NCOUNTERS   96
-#define MAXCHOICES  512
+#define MAXCHOICES  4096
 #define KEYLEN      200
 #define DETLEN      800
 
@@ -299,6 +299,8 @@ static _Atomic uint64_t *counter_slot(const char *name)
         return &S->counter[i].v;
 }
 void mc_count(const char *name, uint64_t n) { atomic_fetch_add(counter_slot(name), n); }
+
+int mc_violations_so_far(void) { return nviols; }
 
 void mc_distinct(uint64_t h)
 {
@@ -589,6 +591,7 @@ int mc_pool(const char *phase, uint64_t ncases, mc_case_fn fn, void *arg, int ti
                         if (!cls[0]) {
                                 if (hang) snprintf(cls, sizeof cls, "hang>%ds", timeout_s * 5);
                                 else if (WIFSIGNALED(st)) snprintf(cls, sizeof cls, "signal:%d", WTERMSIG(st));
+                                else if (WEXITSTATUS(st) == 43) snprintf(cls, sizeof cls, "scheduler-abort");
                                 else snprintf(cls, sizeof cls, "exit:%d", WEXITSTATUS(st));
                         }
                         snprintf(key, sizeof key, "%s crash=%s", w->key[0] ? w->key : phase, cls);
@@ -686,6 +689,8 @@ int mc_deviations(void)
         int d = 0; for (int i = 0; i < ch_n; i++) if (ch_vec[i] && !ch_free[i]) d++; return d;
 }
 
+static int shard_part = 0, shard_n = 1;
+
 static uint64_t explore_rec(mc_body_fn body, void *arg, int bound, const int *pv, const int *pa, int pn)
 {
         memcpy(pf_vec, pv, pn * sizeof(int)); memcpy(pf_arity, pa, pn * sizeof(int)); pf_n = pn;
@@ -701,6 +706,7 @@ static uint64_t explore_rec(mc_body_fn body, void *arg, int bound, const int *pv
         for (int i = pn; i < n; i++) {
                 /* vec[i] == 0 here (default after the prefix) */
                 int c = cost + (fr[i] ? 0 : 1);
+                if (pn == 0 && shard_n > 1 && (i % shard_n) != shard_part) continue;
                 if (c <= bound) {
                         for (int alt = 1; alt < ar[i]; alt++) {
                                 vec[i] = alt;
@@ -711,6 +717,14 @@ static uint64_t explore_rec(mc_body_fn body, void *arg, int bound, const int *pv
         }
         free(vec); free(ar); free(fr);
         return runs;
+}
+
+uint64_t mc_explore_shard(mc_body_fn body, void *arg, int bound, int part, int nparts)
+{
+        shard_part = part; shard_n = nparts > 0 ? nparts : 1;
+        uint64_t r = mc_explore(body, arg, bound);
+        shard_part = 0; shard_n = 1;
+        return r;
 }
 
 uint64_t mc_explore(mc_body_fn body, void *arg, int bound)
